@@ -64,6 +64,7 @@ OPTIONAL_FEATURES = frozenset({
     "req_undeclared",     # an open struct may require a member it does not declare (any value / the additional schema's)
     "typed_addl",         # structs with `additionalProperties: <schema>` next to their properties (a flattened map member)
     "objunion",           # oneOf / anyOf whose branches are ALL objects (told apart by required / closed members; non-exclusive anyOf)
+    "def_descriptions",   # definitions carry a `description` (annotations must not change the generated shape)
 })
 ALL_FEATURES = DEFAULT_FEATURES | OPTIONAL_FEATURES
 FEATURE_SETS = {
@@ -73,7 +74,7 @@ FEATURE_SETS = {
     "allof": DEFAULT_FEATURES | {"allof", "allof_closed", "allof_refine"},
     "not": DEFAULT_FEATURES | {"not"},
     "defaults": DEFAULT_FEATURES | {"defaults"},
-    "idioms": DEFAULT_FEATURES | {"idioms", "const"},
+    "idioms": DEFAULT_FEATURES | {"idioms", "const", "def_descriptions"},
     # C05: only constructs whose constraints typify claims to enforce
     "c05": frozenset({"struct", "closed", "enum_external", "enum_internal", "enum_adjacent", "strenum",
                       "newtype", "constrained_string", "tuple", "array", "vec", "map", "option",
@@ -83,7 +84,7 @@ FEATURE_SETS = {
                       "refs", "allof", "allof_closed", "allof_unsat", "allof_refine"}),
     "hostile": DEFAULT_FEATURES | {"hostile_names"},
     "maps": DEFAULT_FEATURES | {"map_keys", "any", "defaults", "typed_addl", "req_undeclared"},
-    "unions": DEFAULT_FEATURES | {"objunion", "allof", "typed_addl", "req_undeclared", "int_enums"},
+    "unions": DEFAULT_FEATURES | {"objunion", "allof", "typed_addl", "req_undeclared", "int_enums", "def_descriptions"},
     "all": ALL_FEATURES - {"hostile_names", "invalid_defaults", "allof_unsat", "not_untyped"},
 }
 
@@ -1189,7 +1190,9 @@ def gen_universe_ex(rng, size, features=None):
         s = pr.p(t)
         if s is True: s = {}
         doc["definitions"][name] = s
-        if "defaults" in F and t["k"] in ("strenum", "str", "int", "bool", "num", "struct", "vec", "map", "tuple") \
+        if "def_descriptions" in F and isinstance(s, dict) and "$ref" not in s and rng.random() < 0.4:
+            s["description"] = "the %s" % name
+        if "defaults" in F and t["k"] in ("strenum", "str", "int", "bool", "num", "struct", "vec", "map", "tuple", "enum") \
                 and rng.random() < 0.25 and "$ref" not in s:
             named_default.append(s)
     meta = {"universe": ir, "features": sorted(F), "invalid_defaults": [], "idioms": []}
